@@ -2189,9 +2189,9 @@ class SparseVector:
         other_size = other.size
         other_dct = other.dct
         if size == other_size:
-            if len(dct) > len(other_dct): 
-                raise ZeroDivisionError('division by zero')
-            new = {i: dct[i] / other_dct[i] for i in dct if i in other_dct}
+            for i in dct:
+                if i not in other_dct: raise ZeroDivisionError('division by zero')
+            new = {i: dct[i] / other_dct[i] for i in dct}
         elif size == 1 and other_size: 
             if 0 in dct: 
                 if len(other_dct) != other_size: raise ZeroDivisionError('division by zero')
@@ -2250,7 +2250,7 @@ class SparseVector:
                     raise ZeroDivisionError('division by zero')
         elif size == 1 and other_size: 
             if 0 in dct: 
-                if other_size != other_size: raise ZeroDivisionError('division by zero')
+                if len(other_dct) != other_size: raise ZeroDivisionError('division by zero')
                 value = dct.pop(0)
                 for i, j in other_dct.items(): dct[i] = value / j
             self.size = other_size
@@ -2891,9 +2891,10 @@ class SparseLogicalVector:
         if size == other_size:
             if set.difference(other.set): raise ZeroDivisionError('division by zero')
         elif size == 1 and other_size: 
+            if 0 in set: 
+                if len(other.set) != other_size: raise ZeroDivisionError('division by zero')
+                set.update(range(1, other_size))
             self.size = other_size
-            if 0 in set: set.update(range(1, other_size))
-            elif set.difference(other.set): raise ZeroDivisionError('division by zero')
         elif other_size == 1:
             if not other.set and set: raise ZeroDivisionError('division by zero')
         else:
